@@ -98,6 +98,25 @@ NextSearchFactor(sf2, status, scAfter, ntry) ==
 NextOverflows(ovf, good, kBefore, kcap) ==
   IF good /\ kBefore = kcap THEN ovf + 1 ELSE ovf
 
+(* ---- size of the Sobol initial design (init_sobol.py l.55-58, bads.py l.974-989)
+   requested = min(fun_eval_start, budget - 1); drawn = 2^m with m = ceil(log2 requested),
+   one more doubling when 2^m equals the dimension                                          *)
+RECURSIVE CeilLog2Aux(_, _, _)
+CeilLog2Aux(n, m, p) == IF p >= n THEN m ELSE CeilLog2Aux(n, m + 1, 2 * p)
+CeilLog2(n) == CeilLog2Aux(n, 0, 1)
+RECURSIVE Pow2(_)
+Pow2(m) == IF m = 0 THEN 1 ELSE 2 * Pow2(m - 1)
+SobolDrawn(requested, D) ==
+  LET m == CeilLog2(requested)
+  IN IF Pow2(m) = D THEN Pow2(m + 1) ELSE Pow2(m)
+\* noisy targets start from at least 20 points (bads.py l.963-967)
+FunEvalStartEff(noisy, fes, budget) ==
+  IF noisy THEN Min2(Max2(20, fes), budget) ELSE fes
+InitRequested(noisy, fes, budget) == Min2(FunEvalStartEff(noisy, fes, budget), budget - 1)
+
+(* ---- hyperparameter refits are at least min_refit_time evaluations apart (l.2354-2365) *)
+RefitSpacingOk(fcNow, fcLastRefit, minRefitTime) == fcLastRefit < fcNow - minRefitTime
+
 (* ---- model-checked bound on consecutive non-progress loop iterations -- *)
 \* (proved tight by TLC on BadsRun, see BadsRun.tla NonProgressBounded)
 NonProgressBound(ntry) == IF ntry >= 1 THEN 2 * ntry - 2 ELSE 0
